@@ -225,6 +225,59 @@ theorem C13_variable (lg exp10 : K → K) (hexp : ∀ x, 0 < x → exp10 (lg x) 
         rw [lastD_zip_fst (a1 :: rest) ct (by simpa using hcl.symm) a0 c0, ← hmx]; simp [lastD]
       rw [interpStrictT_eq (a0, c0) _ _ hge (by rw [hl]; exact clampHi_le _ _)]
 
+/-- **C13 (variable aperture, liveness).**  For an SED of shape `n_ap × n_wav` with ≥ 2 increasing
+    apertures and at least one filter, if no filter aperture is below the smallest tabulated one then
+    `interpolate_variable` returns (whatever `lg` / `exp10` are: the aperture assigned to a wavelength is
+    clipped into the table before the SED is interpolated). -/
+theorem C13_variable_returns (lg exp10 : K → K) (s : SedTab K) (a0 a1 : K) (rest : List K)
+    (haps : s.aps = a0 :: a1 :: rest) (hinc : Incr s.aps)
+    (hshape1 : s.flux.length = s.aps.length) (hshape2 : ∀ row ∈ s.flux, row.length = s.wav.length)
+    (fw fa : List K) (hlen : fw.length = fa.length) (hne : fw ≠ []) (hge : ∀ a ∈ fa, a0 ≤ a) :
+    ∃ out, interpVariable lg exp10 s fw fa = .ok out := by
+  have hcols := transposeN_cols s.wav.length s.flux hshape2
+  have hle := head_le_lastD a0 a1 rest (haps ▸ hinc)
+  unfold interpVariable
+  rw [haps]
+  simp only
+  generalize hmx : lastD (a0 :: a1 :: rest) a0 = mx at hle ⊢
+  have hchk : ∀ x ∈ fa.map (clampHi mx), ¬ x < a0 := by
+    intro x hx
+    obtain ⟨a, ha, rfl⟩ := List.mem_map.mp hx
+    unfold clampHi
+    split
+    · exact not_lt.mpr hle
+    · exact not_lt.mpr (hge a ha)
+  rw [any_lt_eq_false _ a0 hchk]
+  simp only [Bool.false_eq_true, if_false]
+  have htl : (((fw.zip (fa.map (clampHi mx))).mergeSort (fun p q => decide (p.1 ≤ q.1))).map
+      (fun p => (lg p.1, lg p.2))).length = fw.length := by
+    simp [List.length_mergeSort, List.length_zip, hlen]
+  generalize ((fw.zip (fa.map (clampHi mx))).mergeSort (fun p q => decide (p.1 ≤ q.1))).map
+      (fun p => (lg p.1, lg p.2)) = tab at htl
+  cases tab with
+  | nil =>
+    have : fw.length = 0 := by simpa using htl.symm
+    exact absurd (List.length_eq_zero_iff.mp this) hne
+  | cons t0 trest =>
+    simp only
+    apply seqE_ok_of_forall
+    intro x hx
+    obtain ⟨w, _, col, hcol, rfl⟩ := mem_zipWith _ _ _ _ hx
+    have hcl : col.length = (a0 :: a1 :: rest).length := by rw [hcols col hcol, hshape1, haps]
+    have hb := clampK_mem a0 mx (exp10 (npInterpEdge (t0 :: trest) (lg w))) hle
+    exact ⟨_, interpStrictT_col a0 a1 rest col hcl _ hb.1 (by rw [hmx]; exact hb.2)⟩
+
+/-- **C13 (variable aperture, below).**  One filter aperture below the smallest tabulated one makes
+    `interpolate_variable` refuse. -/
+theorem C13_variable_below_error (lg exp10 : K → K) (s : SedTab K) (a0 a1 : K) (rest : List K)
+    (haps : s.aps = a0 :: a1 :: rest) (hinc : Incr s.aps) (fw fa : List K) (a : K) (ha : a ∈ fa)
+    (hlt : a < a0) : interpVariable lg exp10 s fw fa = .error .tooSmall := by
+  unfold interpVariable
+  rw [haps]
+  simp only
+  rw [below_any a0 a1 rest fa (haps ▸ hinc) a ha hlt]
+  rfl
+
 /-! ### Non-vacuity -/
 
 /-- a concrete increasing table with matching fluxes (hypotheses of `C13_knot … C13_above`) -/
